@@ -18,6 +18,7 @@ run per seeded multi-module history) and recorded as supporting runs, not proof.
 -/
 import PvModel.Store
 import Generated.Determinism
+import Generated.KeeperState
 
 namespace PvProofs.C18
 open PvModel.Store PvProofs.Facts
@@ -265,5 +266,19 @@ theorem determinism_facts_nonvacuous :
     (Generated.determinism.any fun f => f.func == "sortedKeys" && f.cls == "sorted") = true ∧
     (Generated.determinism.any fun f => f.file == "internal/antewrapper/fee_gas_meter.go" && f.kind == "range-map") = true := by
   decide
+
+/-! ## No in-memory state in keepers that could make behaviour depend on process start -/
+
+/-- Functions that fill a keeper-level map once while the app is being wired (before any block). -/
+def startupRegistration : List String := [
+  "PioMsgServiceRouter.registerHybridHandler", "PioMsgServiceRouter.registerMsgServiceHandler"]
+
+def keeperFieldOk (f : KeeperField) : Bool := f.mutatedIn.all fun fn => startupRegistration.contains fn
+
+/-- Every map / slice / channel field of every keeper and app-level handler struct is written
+only by constructors or start-up registration: nothing a running node accumulates in memory
+(caches, counters) can differ from a freshly restarted one. A newly added in-memory cache that
+is filled while blocks execute changes the regenerated list and breaks this theorem. -/
+theorem keeper_state_constant : Generated.keeperState.all keeperFieldOk = true := by decide
 
 end PvProofs.C18
